@@ -81,12 +81,12 @@ type listStep struct {
 	result2 string   // a second R line
 	altList []HV     // the operation's own array may also end like this (see pop-push-self)
 	hasAlt  bool
-	keys    string   // a K line precedes R: the string forms the model assumed (run skipped when they differ)
-	alt     string   // twin runs: the statements of the second run's last operation
-	pattern bool     // the fatal operation sits in the pattern of a following rule
-	twin    bool     // the last operation is executed in two runs whose endings are compared
-	q       bool     // a Q line follows (contains): R must equal the OR of the Q values
-	fatal   bool     // the operation must end the run with a runtime error
+	keys    string // a K line precedes R: the string forms the model assumed (run skipped when they differ)
+	alt     string // twin runs: the statements of the second run's last operation
+	pattern bool   // the fatal operation sits in the pattern of a following rule
+	twin    bool   // the last operation is executed in two runs whose endings are compared
+	q       bool   // a Q line follows (contains): R must equal the OR of the Q values
+	fatal   bool   // the operation must end the run with a runtime error
 }
 
 func allScalar(l []HV) bool {
